@@ -10,7 +10,10 @@ patch=$1; id=$2; tier=${3:-quick}
 mkdir -p "$M/out"
 rsync -a --delete --exclude target --exclude .git /repo/ "$M/repo/"
 if [ "$patch" != "-" ]; then
-    (cd "$M/repo" && patch -p1 --no-backup-if-mismatch < "$patch") || { echo "PATCH FAILED"; exit 2; }
+    case "$patch" in
+    *.sh) (cd "$M/repo" && bash "$patch") || { echo "MUTATION SCRIPT FAILED"; exit 2; } ;;
+    *) (cd "$M/repo" && patch -p1 --no-backup-if-mismatch < "$patch") || { echo "PATCH FAILED"; exit 2; } ;;
+    esac
 fi
 rsync -a --exclude target /verif/harness/ "$M/harness/"
 sed -i "s|path = \"/repo/|path = \"$M/repo/|" "$M/harness/Cargo.toml"
